@@ -338,22 +338,25 @@ def _plans(tier, rng):
         out.append(("Net(6,5,3) sample x sampled trees", scope.sample_networks(6, 5, 3, 40, rng), False,
                     {"trees": 40, "sizes12": 1, "opts": 2}, "seeded sample of 40 networks; 40 random of 945 trees each"))
     else:
+        # order matters under a time limit: complete small scopes, then the samples of larger networks,
+        # then the big complete scopes "as far as time allows"
         out.append(("Net(2,3,3) x all trees x all sizes{1,2} x FULL option cross product",
                     ge2(scope.networks(2, 3, 3)), True,
                     {"trees": "all", "sizes12": None, "sizes23": 2, "opts": "full"}, "all 3108 networks"))
-        out.append(("Net(3,3,2) x all trees x all sizes{1,2} x FULL option cross product",
+        out.append(("Net(3,3,2) x all trees x sizes{1,2}(<=2)+{2,3}(1) x FULL option cross product",
                     ge2(scope.networks(3, 3, 2)), True,
-                    {"trees": "all", "sizes12": 4, "sizes23": 1, "opts": "full"}, "all 4106 networks; all 3 trees; all-2 + <=3 more {1,2} assignments + one {2,3}; 150 option combinations"))
-        out.append(("Net(3,3,3) x all trees x rotated options", ge2(scope.networks(3, 3, 3)), True,
-                    {"trees": "all", "sizes12": 2, "sizes23": 1, "opts": 3}, "all 152423 networks; all 3 trees"))
-        out.append(("Net(4,3,2) x all trees x rotated options", ge2(scope.networks(4, 3, 2)), True,
-                    {"trees": "all", "sizes12": 2, "opts": 2}, "all 63361 networks; all 15 trees"))
+                    {"trees": "all", "sizes12": 2, "sizes23": 1, "opts": "full"},
+                    "all 4106 networks; all 3 trees; all-2 + one more {1,2} assignment + one {2,3}; 150 option combinations"))
         out.append(("Net(4,4,3) sample x all trees", scope.sample_networks(4, 4, 3, 4000, rng), False,
                     {"trees": "all", "sizes12": 2, "sizes23": 1, "opts": 3}, "seeded sample of 4000 networks"))
         out.append(("Net(5,5,3) sample x all trees", scope.sample_networks(5, 5, 3, 600, rng), False,
                     {"trees": "all", "sizes12": 1, "sizes23": 1, "opts": 2}, "seeded sample of 600 networks; all 105 trees"))
         out.append(("Net(6,5,3) sample x sampled trees", scope.sample_networks(6, 5, 3, 600, rng), False,
                     {"trees": 100, "sizes12": 1, "opts": 2}, "seeded sample of 600 networks; 100 random of 945 trees each"))
+        out.append(("Net(3,3,3) x all trees x rotated options", ge2(scope.networks(3, 3, 3)), True,
+                    {"trees": "all", "sizes12": 2, "sizes23": 1, "opts": 3}, "all 152423 networks; all 3 trees"))
+        out.append(("Net(4,3,2) x all trees x rotated options", ge2(scope.networks(4, 3, 2)), True,
+                    {"trees": "all", "sizes12": 2, "opts": 2}, "all 63361 networks; all 15 trees"))
     return out
 
 
@@ -435,4 +438,9 @@ def run_bounded(rep: Report, tier: str) -> None:
         "5 tensors (sampled for 6). Nothing is claimed beyond these bounds. "
     )
     rep.assumptions.append("C01: equality as integer polynomials implies equality for every numeric dtype whose arithmetic is a commutative ring; floating-point rounding is out of scope")
-    rep.trusted_base.append("vt.symval (Poly arithmetic, dense_einsum reference), numpy object-array reshape/transpose/matmul")
+    rep.assumptions.append(
+        "C01: arrays are numpy object arrays, so single-operand einsums (leaf preprocessing, operand preparation inside the "
+        "matmul-based pairwise einsum) are served by numpy.einsum; cotengra's own single-term fallback "
+        "(contract._parse_einsum_single, used only for backends without einsum) is not reached here - it is C11's subject"
+    )
+    rep.trusted_base.append("vt.symval (Poly arithmetic, dense_einsum reference), numpy object-array reshape/transpose/matmul/einsum(single operand)")
